@@ -35,7 +35,19 @@ func isReservedHeader(k string) bool {
 	switch k {
 	case "content-type", "user-agent", "grpc-message-type", "grpc-encoding",
 		"grpc-message", "grpc-status", "grpc-timeout",
-		"grpc-status-details", "te":
+		"grpc-status-details-bin", "te":
+		return true
+	default:
+		return false
+	}
+}
+
+// isFramingHeader reports whether net/http gives the response header k a
+// meaning of its own; handler metadata must not set those.
+func isFramingHeader(k string) bool {
+	switch k {
+	case "trailer", "content-length", "transfer-encoding",
+		"content-encoding", "connection":
 		return true
 	default:
 		return false
@@ -92,7 +104,7 @@ func newIncomingContext(ctx context.Context, header http.Header) (context.Contex
 
 func setOutgoingHeader(header http.Header, md metadata.MD) {
 	for k, vs := range md {
-		if isReservedHeader(k) {
+		if isReservedHeader(k) || isFramingHeader(k) {
 			continue
 		}
 
